@@ -185,6 +185,14 @@ func c19Exec(t *testing.T, scn c19Scenario, ch *mc.Chooser) (rec c19Rec, machine
 			case "K2":
 				cl.Nodes[2].DropParked()
 				cl.Nodes[2].KillConns()
+			case "E0", "E1":
+				// the next request node 0 / node 1 processes is answered with an error reply, once
+				n := cl.Nodes[int(step[1]-'0')]
+				pl := n.PlanRef()
+				if pl.FailAt == nil {
+					pl.FailAt = map[int]string{}
+				}
+				pl.FailAt[n.NumReqs()+1] = "ERR injected failure"
 			case "K1":
 				// transient failure of node 1: its connections are lost together with what was in flight
 				cl.Nodes[1].DropParked()
@@ -201,7 +209,11 @@ func c19Exec(t *testing.T, scn c19Scenario, ch *mc.Chooser) (rec c19Rec, machine
 			rec.RunStart = append(rec.RunStart, cl.Clock())
 			if runNo > 0 {
 				// a reported restart: the next start resumes from the stored position. Start-up
-				// requests are not parked (they are not part of the replay under test).
+				// requests are not parked (they are not part of the replay under test) and an
+				// injected error reply that no request of the previous run met is dropped.
+				for _, n := range cl.Nodes {
+					n.PlanRef().FailAt = nil
+				}
 				setPark(false)
 				sp, err := ro.StartPoint(context.Background(), []string{aofRunID, biRunID2})
 				setPark(true)
@@ -574,6 +586,9 @@ func runC19(t *testing.T, rep *mc.Reporter) {
 		{Txn: true, Resume: true, Pipeline: true, Count: 2, Bytes: 1 << 20, DbMode: "id"},
 	}
 	streams := [][]int{{0, 0}, {0, 1, 0}, {0, 2, 0}, {0, 0, 0}, {0, 2, 0, 0}, {0, -1, 0}, {2, 0, 0}}
+	// (error replies other than redirects - steps "E0"/"E1" - are not part of the scripts: C19 quantifies
+	// over slot migrations; a pipelined batch in which one command is refused and the later ones are
+	// executed is how any Redis client behaves, and what follows from it is not a statement of C19)
 	topos := [][]string{{"O"}, {"M", "F"}, {"M", "Ka", "F"}, {"M", "Ka"}, {"M"}, {"K1", "M"}}
 	bound := 2
 	if tier == "thorough" {
